@@ -54,7 +54,7 @@ func init() {
 		Phases:      phases,
 		Run:         run,
 		Floors: func(t string) map[string]int64 {
-			return map[string]int64{"runs.free": 1000, "runs.perturbed": 300, "runs.forced": 200, "window.forced_observed": 100, "window.handshake_runs": 100, "doc.tiny": 8, "doc.negative_ids": 8, "doc.ids_beyond_2^40": 8, "keep.tags": 100, "keep.tags.empty_string_among_wanted_values": 15, "doc.with_a_rejected_element": 1, "keep.bounds": 100, "keep.all": 100,
+			return map[string]int64{"runs.free": 1000, "runs.perturbed": 300, "runs.forced": 200, "window.forced_observed": 100, "window.handshake_runs": 100, "doc.tiny": 8, "doc.negative_ids": 8, "doc.ids_beyond_2^40": 8, "keep.tags": 100, "keep.tags.empty_string_among_wanted_values": 15, "doc.with_a_rejected_element": 1, "doc.way_without_nodes": 30, "doc.empty_member_shared_by_two_relations": 8, "doc.relation_without_members": 15, "keep.bounds": 100, "keep.all": 100,
 				"order.shuffled": 8, "order.ways_first": 3, "order.reverse_cascade": 3, "doc.cascade": 20, "doc.relation_cycle": 5, "doc.dangling": 1, "filter.checked": 100, "gomaxprocs.16": 50, "format.pbf": 300, "format.xml": 1000}
 		},
 	})
@@ -204,7 +204,12 @@ func genDoc(c *core.Ctx, r *gen.R) *doc {
 	}
 	for i := 0; i < nw; i++ {
 		w := dway{ID: wayBase + int64(i), Tags: randTags(r, 0.25)}
-		for k := r.IntRange(2, 6); k > 0; k-- {
+		nk := r.IntRange(2, 6)
+		if r.Chance(0.1) {
+			nk = 0 // a way without nodes (it exists in real extracts): it can only be kept as a member
+			c.Count("doc.way_without_nodes")
+		}
+		for k := nk; k > 0; k-- {
 			w.Nodes = append(w.Nodes, d.nodes[r.Intn(nn)].ID)
 		}
 		d.ways = append(d.ways, w)
@@ -216,7 +221,12 @@ func genDoc(c *core.Ctx, r *gen.R) *doc {
 	cycle := false
 	for i := 0; i < nr; i++ {
 		rel := drel{ID: relBase + int64(i), Tags: randTags(r, 0.3)}
-		for k := r.IntRange(1, 5); k > 0; k-- {
+		nm := r.IntRange(1, 5)
+		if r.Chance(0.1) {
+			nm = 0 // a relation without members
+			c.Count("doc.relation_without_members")
+		}
+		for k := nm; k > 0; k-- {
 			switch r.Intn(4) {
 			case 0:
 				rel.Members = append(rel.Members, member{'n', d.nodes[r.Intn(nn)].ID})
@@ -236,6 +246,38 @@ func genDoc(c *core.Ctx, r *gen.R) *doc {
 	}
 	if cycle {
 		c.Count("doc.relation_cycle")
+	}
+	if r.Chance(0.15) && nr+3 < 90 {
+		// a member without referents of its own (an empty way or relation) shared by two
+		// relations: the first also has a node inside the box, the second has only the shared
+		// member - under KeepBounds it becomes selected the moment that member is stored by need
+		var in *dnode
+		for i := range d.nodes {
+			if d.nodes[i].Lon > 10 && d.nodes[i].Lon < 11 && d.nodes[i].Lat > 20 && d.nodes[i].Lat < 21 {
+				in = &d.nodes[i]
+				break
+			}
+		}
+		if in != nil {
+			shared := member{'r', relBase + int64(nr)}
+			if r.Bool() {
+				shared = member{'w', wayBase + int64(nw)}
+				d.ways = append(d.ways, dway{ID: shared.Ref})
+			} else {
+				d.rels = append(d.rels, drel{ID: shared.Ref})
+			}
+			p1 := drel{ID: relBase + int64(nr) + 1, Members: []member{{'n', in.ID}, shared}}
+			p2 := drel{ID: relBase + int64(nr) + 2, Members: []member{shared}}
+			if r.Bool() {
+				p1.Members[0], p1.Members[1] = p1.Members[1], p1.Members[0]
+			}
+			if r.Bool() {
+				d.rels = append(d.rels, p2, p1)
+			} else {
+				d.rels = append(d.rels, p1, p2)
+			}
+			c.Count("doc.empty_member_shared_by_two_relations")
+		}
 	}
 	if r.Chance(0.06) {
 		// a dangling reference
